@@ -237,7 +237,7 @@ func stateMultiLineAnnotationEnd(s *Scanner, c byte) state {
 }
 
 func stateMultiLineAnnotationText(s *Scanner, c byte) state {
-	if c == '*' && s.data[s.index] == '/' {
+	if c == '*' && s.index < s.dataSize && s.data[s.index] == '/' {
 		s.found(lexeme.MultiLineAnnotationTextEnd)
 		s.step = stateMultiLineAnnotationEnd
 	}
